@@ -508,6 +508,15 @@ pub fn run_concurrent(sc: &Scenario) -> RunReport {
                 return rep;
             }
         }
+        // the shared iterator `it` walks 6 elements: every pull increments its index exactly once,
+        // so at most 6 pulls - by whichever threads - can report an element
+        for (path, len) in [(0usize, ITER_ITEMS.len()), (1, ITER2_ITEMS.len())] {
+            let delivered = hist.iter().filter(|h| matches!(h.op.kind, OpKind::Pull) && h.op.path == path).filter(|h| obs_text(&h.obs).starts_with("(true")).count();
+            if delivered > len {
+                rep.violation = Some(("iterator-overdelivers".into(), format!("{delivered} pulls from the shared {len}-element iterator reported an element (its index is a cell incremented once per pull)")));
+                return rep;
+            }
+        }
         // operations whose result does not depend on the history (consistent-snapshot reads, pure
         // blocks): the result is what it is under every interleaving
         for h in &hist {
@@ -1164,6 +1173,7 @@ pub fn gen_concurrent(seed: u64, boot_seed: u64, run: u64) -> Scenario {
         allow_show: rng.chance(2, 3),
         allow_self: rng.chance(1, 3),
         allow_pull: rng.chance(1, 4),
+        pull_heavy: !repoint && !transfer_heavy && rng.chance(1, 12),
     };
     let mut unique = 1000 * (1 + rng.below(50) as i64);
     let ops_per = 1 + rng.below(4);
@@ -1189,6 +1199,7 @@ pub fn gen_sequential(seed: u64, boot_seed: u64, run: u64) -> Scenario {
         allow_show: true,
         allow_self: rng.chance(1, 2),
         allow_pull: rng.chance(1, 3),
+        pull_heavy: false,
     };
     let mut unique = 100 * (1 + rng.below(50) as i64);
     let n = 5 + rng.below(36);
@@ -1196,7 +1207,11 @@ pub fn gen_sequential(seed: u64, boot_seed: u64, run: u64) -> Scenario {
     let ops = (0..n)
         .map(|_| {
             if rng.chance(attack_rate, 10) {
-                Op { cell: 0, path: 0, kind: OpKind::Attack(ATTACKS[rng.below(ATTACKS.len())].to_string()) }
+                if rng.chance(1, 3) {
+                    Op { cell: 0, path: 0, kind: OpKind::Attack(matrix_attack(&mut rng)) }
+                } else {
+                    Op { cell: 0, path: 0, kind: OpKind::Attack(ATTACKS[rng.below(ATTACKS.len())].to_string()) }
+                }
             } else {
                 gen_op(&mut rng, &cfg, &mut unique)
             }
